@@ -71,6 +71,13 @@ type AssertSpec struct {
 	Text   string
 	Ord    int
 	hits   int
+	// Optional: the obligation exists only while the anchored statement exists
+	// (assert_if_present); used for "this statement is only admissible if ..."
+	Optional bool
+	// Then: the clause holds on entry to the true branch of the (last) if
+	// condition on the anchored line (assert_then) — for branches such as a
+	// bare break/continue that have no positioned instruction of their own.
+	Then bool
 }
 
 type SpecFunc struct {
@@ -128,7 +135,7 @@ var stmtKeywords = map[string]bool{
 	"spec": true, "pred": true, "lemma": true, "axiom": true, "func": true, "interface": true, "functype": true,
 	"prop": true, "mode": true, "requires": true, "ensures": true, "panics": true, "modifies": true,
 	"decreases": true, "loop": true, "invariant": true, "closure": true, "trusted": true, "inline": true,
-	"assert": true, "defines": true, "lift": true, "requires_impl": true, "using": true, "opt": true, "nosafety": true, "induction": true, "opaque_spec": true, "opaque_pred": true,
+	"assert": true, "assert_if_present": true, "assert_then": true, "defines": true, "lift": true, "requires_impl": true, "using": true, "opt": true, "nosafety": true, "induction": true, "opaque_spec": true, "opaque_pred": true,
 }
 
 type stmt struct {
@@ -391,7 +398,7 @@ func (cs *Contracts) loadContractFile(path, importPath string, external bool) er
 			case "panics":
 				curF.Panics = append(curF.Panics, c)
 			}
-		case "assert":
+		case "assert", "assert_if_present", "assert_then":
 			if curF == nil {
 				return fmt.Errorf("%s:%d: assert outside func", path, s.line)
 			}
@@ -418,7 +425,7 @@ func (cs *Contracts) loadContractFile(path, importPath string, external bool) er
 			}
 			cl := &Clause{Kind: "assert", Props: props, Label: label, Text: rest, Expr: e, File: path, Line: s.line}
 			lastClause = cl
-			curF.Asserts = append(curF.Asserts, &AssertSpec{C: cl, Text: loc, Ord: ord})
+			curF.Asserts = append(curF.Asserts, &AssertSpec{C: cl, Text: loc, Ord: ord, Optional: s.kw == "assert_if_present", Then: s.kw == "assert_then"})
 		case "modifies":
 			if curF == nil {
 				return fmt.Errorf("%s:%d: modifies outside func", path, s.line)
